@@ -283,6 +283,52 @@ Qed.
 (* ------------------------------------------------------------------ *)
 (* examples                                                            *)
 
+(* non-vacuity of Blockstore.linearizable: an executable run of the concurrent model.
+   Two goroutines; the second Put of key 1 loses; the reader overlaps nothing it should not. *)
+Definition ex_progs (i : nat) : list bopN :=
+  match i with
+  | 0%nat => [OPut 1 10; OGet 2]
+  | 1%nat => [OPut 1 11; OPut 2 20; OIter]
+  | _ => []
+  end.
+Ltac lock_side :=
+  cbn; let j := fresh "j" in let Hj := fresh "Hj" in
+  intros j Hj; destruct j as [|[|j]]; cbn; try reflexivity; try discriminate; try congruence.
+Ltac model_step :=
+  first [ eapply s_put_lock; [reflexivity|lock_side]
+        | eapply s_put_found; reflexivity
+        | eapply s_put_absent; reflexivity
+        | eapply s_put_map; reflexivity
+        | eapply s_put_keys; reflexivity
+        | eapply s_put_unlock; reflexivity
+        | eapply s_get_lock; [reflexivity|lock_side]
+        | eapply s_get_read; reflexivity
+        | eapply s_get_unlock; reflexivity
+        | eapply s_iter_lock; [reflexivity|lock_side]
+        | eapply s_iter_keys; reflexivity
+        | eapply s_iter_blks; reflexivity
+        | eapply s_iter_unlock; reflexivity ].
+Example ex_model_run : exists c,
+  creach N N N.eqb (cinit N N ex_progs)
+    ([1; 1; 1; 1; 1] ++ [0; 0; 0] ++ [1; 1; 1; 1; 1] ++ [0; 0; 0] ++ [1; 1; 1; 1])%nat c /\
+  finished N N c /\ iterN (st N N c) = [(1, Some 11); (2, Some 20)].
+Proof.
+  (* goroutine 1 puts key 1 first, goroutine 0's Put of key 1 finds it and changes nothing, ... *)
+  eexists. split; [|split].
+  - cbn [app].
+    do 20 (eapply creach_cons; [cbn [cinit st thr log set_thr]; model_step|]). apply cr_nil.
+  - intros i. destruct i as [|[|i]]; reflexivity.
+  - reflexivity.
+Qed.
+(* while goroutine 1 holds the write lock, goroutine 0 cannot start its Put *)
+Example ex_model_blocked : forall c1 c2,
+  cstep N N N.eqb (cinit N N ex_progs) 1%nat c1 -> ~ cstep N N N.eqb c1 0%nat c2.
+Proof.
+  intros c1 c2 S1 S2. inversion S1; subst; cbn in *; try discriminate.
+  inversion S2; subst; cbn in *; try discriminate.
+  match goal with H : forall j, j <> 0%nat -> _ |- _ => specialize (H 1%nat ltac:(discriminate)); cbn in H; discriminate end.
+Qed.
+
 (* compact constructors used by the generated case files *)
 Definition P (k v : N) : obs := (OPut k v, RPut).
 Definition G (k : N) (r : option N) : obs := (OGet k, RGet r).
